@@ -39,7 +39,9 @@ FloatTexts == <<"0.0", "0.5", "1.5", "-2.25", "0.1", "0.30000000000000004", "123
                "1000000000000000000000.0", "100.0", "0.000001", "179769313486231570000000000000000000000.0">>
 StrTexts == <<"\"\"", "\"a\"", "\"a b\"", "\"\\n\\t\\\\\"", "\"\\\"q\\\"\"", "\"\\u00e9\"", "\"\\U0001F600 x\"", "'single'", "`raw\\n`", "\"{}\"", "'{1 + 1}'", "\"0\"", "\"nil\"", "\"true\"",
               \* characters that text encodings treat specially: ESC, NUL, BEL / VT, DEL, a tag character of plane 14, C1 controls
-              "\"\\x1b[1mbold\\x1b[0m\"", "\"a\\x00b\"", "\"\\a\\v\"", "\"\\x7f\"", "\"\\U000E0067\"", "\"\\u0085\\u2028\"">>
+              "\"\\x1b[1mbold\\x1b[0m\"", "\"a\\x00b\"", "\"\\a\\v\"", "\"\\x7f\"", "\"\\U000E0067\"", "\"\\u0085\\u2028\"",
+              \* octal escapes: single BYTES, the string is not valid UTF-8 (the serialised form must still carry it)
+              "\"\\377\"", "\"a\\200b\\101\"">>
 OtherTexts == <<"true", "false", "nil">>
 ConstTexts == IntTexts \o FloatTexts \o StrTexts \o OtherTexts
 Numeric(k) == k <= Len(IntTexts) + Len(FloatTexts)
